@@ -80,7 +80,7 @@ def run(tier, seed):
         o = fh[i % len(fh)]
         o.write(json.dumps({"e": "Reset", "n": 0, "t": 0, "o": -1, "a": i, "b": 0}) + "\n")
         if os.path.exists(tp):
-            body = open(tp).read()
+            body = ctlrun.annotate(open(tp).read())
             nev += body.count("\n")
             o.write(body)
             os.remove(tp)
